@@ -210,14 +210,13 @@ Definition kind_CountSetExprNode : kdesc := {|
   k_name := "CountSetExprNode"; k_ptr := true; k_file := "node_set.go";
   k_strs := [];
   k_children := [
-    {| cf_name := "symbol"; cf_shape := FSingle; cf_type := "SymbolNode"; cf_hidden := false; cf_nilable := false |};
+    {| cf_name := "symbol"; cf_shape := FSingle; cf_type := "SymbolNode"; cf_hidden := false; cf_nilable := true |};
     {| cf_name := "query"; cf_shape := FSingle; cf_type := "Query"; cf_hidden := false; cf_nilable := true |} ];
   k_symbol := SymVia "symbol";
   k_recv_guard := false;
   k_accept := [
     ACallback "VisitCountSetExprNodeStart";
-    AAccept "symbol";
-    AAcceptIfNonNil "query";
+    AUnknown "acceptSetExpr(visitor, node.symbol, node.query)";
     ACallback "VisitCountSetExprNodeEnd" ];
   k_unsupported := [] |}.
 
@@ -466,14 +465,13 @@ Definition kind_IsEmptySetExprNode : kdesc := {|
   k_name := "IsEmptySetExprNode"; k_ptr := true; k_file := "node_set.go";
   k_strs := [];
   k_children := [
-    {| cf_name := "symbol"; cf_shape := FSingle; cf_type := "SymbolNode"; cf_hidden := false; cf_nilable := false |};
+    {| cf_name := "symbol"; cf_shape := FSingle; cf_type := "SymbolNode"; cf_hidden := false; cf_nilable := true |};
     {| cf_name := "query"; cf_shape := FSingle; cf_type := "Query"; cf_hidden := false; cf_nilable := true |} ];
   k_symbol := SymVia "symbol";
   k_recv_guard := false;
   k_accept := [
     ACallback "VisitIsEmptySetExprNodeStart";
-    AAccept "symbol";
-    AAcceptIfNonNil "query";
+    AUnknown "acceptSetExpr(visitor, node.symbol, node.query)";
     ACallback "VisitIsEmptySetExprNodeEnd" ];
   k_unsupported := [] |}.
 
